@@ -213,6 +213,10 @@ static GLOBALS: OnceLock<Globals> = OnceLock::new();
 /// Globals: the full extended library plus the harness natives.
 pub fn globals() -> &'static Globals {
     GLOBALS.get_or_init(|| {
+        // Nobody can observe an intermediate state of a Once initialiser: run it without
+        // pre-emption under the cooperative scheduler (a pre-empted initialiser would make other
+        // simulated threads block natively on the OnceLock).
+        let _no_preempt = starlark::verif_hooks::NoPreempt::enter();
         GlobalsBuilder::extended_by(&[
             LibraryExtension::StructType,
             LibraryExtension::RecordType,
